@@ -42,6 +42,7 @@ import (
 )
 
 var stmts0 int64 // stmtsSeen when the current case started (one case at a time per process)
+var rebuilds0 int64
 
 type KV struct {
 	K string `json:"k"`
@@ -63,6 +64,11 @@ type Obs struct {
 	Followup string   `json:"followup,omitempty"` // a healthy request sent AFTER this one that was not answered (family: what)
 	// live tail over a websocket: messages read before the client left or the server ended the session, how many of them
 	// were empty (not a JSON document), and how the reading ended: client-left | server-closed | timeout
+	// how often StableSqlxDBWrapper closed its connection pool and opened a new one while this request was served
+	Rebuilds int64 `json:"rebuilds"`
+	// a history: the observations of the later requests (Case.Then) served by the same process after this one, in order;
+	// the history stops at the first request that is not answered
+	Steps   []*Obs `json:"steps,omitempty"`
 	WsMsgs  int    `json:"ws_msgs,omitempty"`
 	WsEmpty int    `json:"ws_empty,omitempty"`
 	WsEnd   string `json:"ws_end,omitempty"`
@@ -84,6 +90,11 @@ type Case struct {
 	AbortAfter *int            `json:"abort_after,omitempty"`
 	Tcp        bool            `json:"tcp,omitempty"`
 	Ws         bool            `json:"ws,omitempty"`   // with Tcp: a websocket client (live tail) that reads AbortAfter messages and drops the connection
+	// the client hangs up while the database is still working on a statement: the request context is cancelled as soon as a
+	// statement of the script marked `stall` has reached the driver (net/http does that when the connection goes away)
+	HangUp bool `json:"hang_up,omitempty"`
+	// a history: requests served by the same process after this one, in this order (each with its own script)
+	Then       []*Case         `json:"then,omitempty"`
 	Boot       Boot            `json:"boot"`           // faults of dbVersion's two bootstrap statements
 	Cold       bool            `json:"cold,omitempty"` // serve with a cold version cache (a database name never seen before)
 	Script     []ResultSet     `json:"script"`
@@ -412,23 +423,36 @@ var probes = []*Case{
 }
 
 func faulted(c *Case) bool {
-	if c.Boot.Settings != "" || c.Boot.Tables != "" || c.AbortAfter != nil {
+	if c.Boot.Settings != "" || c.Boot.Tables != "" || c.AbortAfter != nil || c.HangUp {
 		return true
 	}
 	for _, rs := range c.Script {
-		if rs.QueryErr || rs.FailAfter >= 0 {
+		if rs.QueryErr || rs.FailAfter >= 0 || rs.Stall {
+			return true
+		}
+	}
+	for _, st := range c.Then {
+		if faulted(st) {
 			return true
 		}
 	}
 	return false
 }
 
+// a request whose statement the database refuses: it must be ANSWERED (whatever the status). StableSqlxDBWrapper takes its
+// write lock on this path to rebuild the pool, so this is the request that finds a lock an earlier request left behind.
+var dbErrorProbe = &Case{Class: "probe/db_error", Path: "/loki/api/v1/labels", Script: []ResultSet{{Cols: 1, FailAfter: -1, QueryErr: true}}}
+
 // followUp serves the probes (first with a cold version cache, then warm) and reports the first one that is not answered
 // with a 200 within the deadline; "" = the process keeps serving.
 func followUp(deadline time.Duration) string {
-	for round, cold := range []bool{true, false} {
-		for _, p := range probes {
-			if round == 1 && p.Class != "probe/loki_range" && p.Class != "probe/tempo_search" {
+	for round, cold := range []bool{true, true, false} {
+		ps := probes
+		if round == 0 {
+			ps = []*Case{dbErrorProbe}
+		}
+		for _, p := range ps {
+			if round == 2 && p.Class != "probe/loki_range" && p.Class != "probe/tempo_search" {
 				continue // the warm round only repeats the users of the version cache
 			}
 			curScript.Store(&scriptT{sets: p.Script})
@@ -444,7 +468,7 @@ func followUp(deadline time.Duration) string {
 				if pn != "" {
 					return p.Class + ": handler panic " + pn
 				}
-				if rec.Code != 200 {
+				if rec.Code != 200 && round != 0 {
 					return fmt.Sprintf("%s: status %d", p.Class, rec.Code)
 				}
 			case <-time.After(deadline):
@@ -465,7 +489,21 @@ func runCase(c *Case, deadline time.Duration) *Obs {
 	rows0 := atomic.LoadInt64(&openRows)
 	q0 := atomic.LoadInt64(&queriesSeen)
 	stmts0 = atomic.LoadInt64(&stmtsSeen)
+	rebuilds0 = atomic.LoadInt64(&poolRebuilds)
 	ctx, cancel := context.WithCancel(context.Background())
+	if c.HangUp {
+		for len(stalledCh) > 0 {
+			<-stalledCh
+		}
+		go func() {
+			select {
+			case <-stalledCh:
+			case <-time.After(400 * time.Millisecond):
+			case <-ctx.Done():
+			}
+			cancel()
+		}()
+	}
 	req := buildRequest(c, ctx)
 	if req == nil {
 		cancel()
@@ -546,6 +584,7 @@ func finishCase(c *Case, obs *Obs, rec *httptest.ResponseRecorder, cancel contex
 	obs.JSONOk = json.Unmarshal(rec.Body.Bytes(), &js) == nil
 	obs.Queries = atomic.LoadInt64(&queriesSeen) - q0
 	obs.Stmts = atomic.LoadInt64(&stmtsSeen) - stmts0
+	defer func() { obs.Rebuilds = atomic.LoadInt64(&poolRebuilds) - rebuilds0 }()
 	// goroutines started for the request must be gone; give the scheduler a moment
 	var left []gor
 	waitMs := c.WaitMs
@@ -616,7 +655,17 @@ func worker(casesPath, outPath string, deadline time.Duration, memMB uint64) {
 		id := c.ID
 		put(marker{Start: &id})
 		obs := runCase(c, deadline)
-		if obs.Outcome != "hang" && faulted(c) {
+		poisoned := obs.Outcome == "hang"
+		for _, st := range c.Then {
+			if poisoned {
+				break
+			}
+			st.ID = id
+			so := runCase(st, deadline)
+			obs.Steps = append(obs.Steps, so)
+			poisoned = so.Outcome == "hang"
+		}
+		if !poisoned && faulted(c) {
 			obs.Followup = followUp(1500 * time.Millisecond)
 		}
 		put(marker{ID: &id, Obs: obs})
@@ -629,7 +678,7 @@ func worker(casesPath, outPath string, deadline time.Duration, memMB uint64) {
 		if ms.HeapAlloc > 256<<20 {
 			debug.FreeOSMemory() // what an earlier request allocated must not decide the fate of a later one
 		}
-		if obs.Outcome == "hang" {
+		if poisoned {
 			f.Close()
 			os.Exit(3) // the process is poisoned (a handler is still running): let the parent start a fresh one
 		}
@@ -713,7 +762,7 @@ func runBatch(self string, batch []*Case, dir string, tag string, deadline time.
 		var nr []*Case
 		hangs := 0
 		for _, c := range batch {
-			if c.Obs != nil && (c.Obs.Outcome == "hang" || strings.HasSuffix(c.Obs.Followup, "(blocked)")) {
+			if c.Obs != nil && (c.Obs.Outcome == "hang" || strings.HasSuffix(c.Obs.Followup, "(blocked)") || (len(c.Obs.Steps) > 0 && c.Obs.Steps[len(c.Obs.Steps)-1].Outcome == "hang")) {
 				hangs++
 			}
 		}
